@@ -100,7 +100,8 @@ fn gen_build(rng: &mut Rng) -> (Vec<u32>, Vec<u8>) {
 fn gen(rng: &mut Rng, _i: u64) -> String {
 	if rng.chance(3, 5) {
 		let data = gen_dir(rng);
-		let place = *rng.pick(&[0usize, 4, 8, 12]);
+		// one directory in six sits at an address that is not a multiple of 4: BaseRelocs::parse must refuse it
+		let place = if rng.chance(1, 6) { *rng.pick(&[1usize, 2, 3, 5, 6, 7, 10, 14, 15]) } else { *rng.pick(&[0usize, 4, 8, 12]) };
 		format!("parse data={} place={}", hex(&data), place)
 	}
 	else {
